@@ -241,7 +241,10 @@ class TCore(_lg.Core):
     def __setattr__(self, k, v):
         s = S()
         if s is not None and k in CORE_SHARED:
-            s.point("W", "core." + k, _val(k, v))
+            s.point("Wreq", "core." + k, _val(k, v))
+            object.__setattr__(self, k, v)
+            s.log_event("W", "core." + k, _val(k, v))   # logged when the store has taken effect
+            return
         object.__setattr__(self, k, v)
 
     def __getattribute__(self, k):
@@ -282,7 +285,11 @@ class THandler(_hd.Handler):
         if k == "_stopped":
             s = S()
             if s is not None and object.__getattribute__(self, "_verif_ready"):
-                s.point("W", "h%d._stopped" % object.__getattribute__(self, "_id"), v)
+                hid = object.__getattribute__(self, "_id")
+                s.point("Wreq", "h%d._stopped" % hid, v)
+                object.__setattr__(self, k, v)
+                s.log_event("W", "h%d._stopped" % hid, v)
+                return
         object.__setattr__(self, k, v)
 
     def __getattribute__(self, k):
@@ -329,7 +336,11 @@ class TracingSink:
 
 
 def make_logger(core=None):
-    return _lg.Logger(core=core or TCore(), exception=None, depth=0, record=False, lazy=False, colors=False,
+    core = core or TCore()
+    lk = object.__getattribute__(core, "lock")
+    if isinstance(lk, Lock):
+        lk.tag = "core"
+    return _lg.Logger(core=core, exception=None, depth=0, record=False, lazy=False, colors=False,
                       raw=False, capture=True, patchers=[], extra={})
 
 
